@@ -198,6 +198,8 @@ def check(cell):
 
     if cell[0] == "nary":
         return check_nary(cell)
+    if cell[0] == "allconst":
+        return check_allconst(cell)
     if cell[0] == "oper":
         return check_oper(cell)
     if cell[0] == "meth":
@@ -404,7 +406,79 @@ for _k in ("f_zeros_like", "f_ones_like_f32", "f_full_like"):
     METHOD_DEFAULT[_k] = "follow"  # documented: "inferred from `other`, if other is a tensor"
 
 
+# functions applied to integer / boolean / constant-float tensors only: every input is constant, so must the result be (also when it is float-valued)
+def _allconst_table():
+    import mygrad as mg
+    from mygrad.linalg import norm
+    from mygrad.nnet import activations as A
+    from mygrad.nnet import losses as Lo
+
+    t = {}
+    for o in (None, 1, 2, 3, np.inf, -np.inf, 0.5):
+        t["norm ord=%r" % (o,)] = (lambda o: lambda x: norm(x, ord=o))(o)
+        t["norm ord=%r axis=0" % (o,)] = (lambda o: lambda x: norm(x, ord=o, axis=0))(o)
+    for f in ("sum", "mean", "var", "std", "prod", "max", "min", "cumsum", "cumprod", "sqrt", "exp", "log1p", "sin", "tanh", "square", "cbrt", "abs", "negative", "positive", "reciprocal", "sinc"):
+        t[f] = (lambda f: lambda x: getattr(mg, f)(x))(f)
+    t["divide"] = lambda x: mg.divide(x, x + 1)
+    t["x / 2"] = lambda x: x / 2
+    t["x * 0.5"] = lambda x: x * 0.5
+    t["x ** 2"] = lambda x: x ** 2
+    t["x ** 0.5"] = lambda x: x ** 0.5
+    t["matmul"] = lambda x: mg.matmul(x, x)
+    t["einsum"] = lambda x: mg.einsum("ij,jk->ik", x, x)
+    t["where"] = lambda x: mg.where(x > 1, x, 0.5)
+    t["clip"] = lambda x: mg.clip(x, 1, 3)
+    t["maximum"] = lambda x: mg.maximum(x, 1.5)
+    t["logaddexp"] = lambda x: mg.logaddexp(x, x)
+    t["arctan2"] = lambda x: mg.arctan2(x, x)
+    t["stack"] = lambda x: mg.stack([x, x])
+    t["concatenate"] = lambda x: mg.concatenate([x, x])
+    t["add_sequence"] = lambda x: mg.add_sequence(x, x, 1.5)
+    t["multiply_sequence"] = lambda x: mg.multiply_sequence(x, x, 0.5)
+    t["softmax"] = lambda x: A.softmax(x)
+    t["logsoftmax"] = lambda x: A.logsoftmax(x)
+    t["sigmoid"] = lambda x: A.sigmoid(x)
+    t["relu"] = lambda x: A.relu(x)
+    t["transpose"] = lambda x: x.T
+    t["getitem"] = lambda x: x[0]
+    t["reshape"] = lambda x: x.reshape(4)
+    t["astype"] = lambda x: x.astype("float64") if x.dtype.kind != "f" else None  # constructor: not an operation (float -> non-constant by default)
+    return t
+
+
+_ALLCONST = {}
+ALLCONST_NAMES = ["norm ord=%r%s" % (o, a) for o in (None, 1, 2, 3, np.inf, -np.inf, 0.5) for a in ("", " axis=0")] + [
+    "sum", "mean", "var", "std", "prod", "max", "min", "cumsum", "cumprod", "sqrt", "exp", "log1p", "sin", "tanh", "square", "cbrt", "abs", "negative", "positive", "reciprocal", "sinc",
+    "divide", "x / 2", "x * 0.5", "x ** 2", "x ** 0.5", "matmul", "einsum", "where", "clip", "maximum", "logaddexp", "arctan2", "stack", "concatenate", "add_sequence",
+    "multiply_sequence", "softmax", "logsoftmax", "sigmoid", "relu", "transpose", "getitem", "reshape"]
+
+
+def check_allconst(cell):
+    import mygrad as mg
+
+    _, name, kind = cell
+    if not _ALLCONST:
+        _ALLCONST.update(_allconst_table())
+    src = {"int": lambda: mg.tensor([[1, 2], [3, 4]]), "bool": lambda: mg.tensor([[True, False], [True, True]]), "fconst": lambda: mg.tensor([[1.0, 2.0], [3.0, 4.0]], constant=True),
+           "i8": lambda: mg.tensor(np.array([[1, 2], [3, 4]], dtype=np.int8))}[kind]()
+    try:
+        with np.errstate(all="ignore"):
+            r = _ALLCONST[name](src)
+    except Exception as e:
+        eb = base.exc_brief(e)
+        del e
+        return ("skip", "%s rejects this operand (%s)" % (name, eb[0]))
+    if r is None or not is_tensor(r):
+        return ("skip", "no tensor result")
+    if r.constant is not True:
+        return ("constant_flag", "%s of a %s tensor (every input constant) returned a non-constant %s tensor" % (name, kind, r.dtype))
+    return None
+
+
 def call_cells():
+    for name in ALLCONST_NAMES:
+        for kind in ("int", "bool", "fconst", "i8"):
+            yield ("allconst", name, kind)
     for o in OPERATORS:
         for kl in OPKINDS:
             for kr in OPKINDS:
@@ -530,18 +604,18 @@ def cells(tier):
 
 
 def steps(cell):
-    return 1 if cell[0] in ("nary", "oper", "meth") else len(cell[1])
+    return 1 if cell[0] in ("nary", "oper", "meth", "allconst") else len(cell[1])
 
 
 def nontrivial(cell):
-    if cell[0] in ("nary", "oper", "meth"):
+    if cell[0] in ("nary", "oper", "meth", "allconst"):
         return True
     kinds, prog = cell
     return any(k in ("fconst", "itens", "btens", "nd", "sc") for k in kinds) or any(st[2] is not None for st in prog)
 
 
 def outcome(cell):
-    return "ok:" + cell[0] if cell[0] in ("nary", "oper", "meth") else "ok:%d statements" % len(cell[1])
+    return "ok:" + cell[0] if cell[0] in ("nary", "oper", "meth", "allconst") else "ok:%d statements" % len(cell[1])
 
 
 def plan(tier, seed):
@@ -593,8 +667,8 @@ def finalize(v):
     from mc import conf
 
     me = __import__("harness.C10", fromlist=["x"])
-    me.script = lambda cell, f: ("# %s cell %r\n# %s: %s\n" % (cell[0], cell, f[0], f[1])) if cell[0] in ("nary", "oper", "meth") else render_prog(cell[0], cell[1]) + "# %s: %s\n" % (f[0], f[1])
-    me.signature = lambda cell, f: base.stable_hash((cell[0], cell[1], f[0])) if cell[0] in ("nary", "oper", "meth") else base.stable_hash((tuple(st[0] for st in cell[1]), tuple(st[2] for st in cell[1]), f[0], f[1][:30]))
+    me.script = lambda cell, f: ("# %s cell %r\n# %s: %s\n" % (cell[0], cell, f[0], f[1])) if cell[0] in ("nary", "oper", "meth", "allconst") else render_prog(cell[0], cell[1]) + "# %s: %s\n" % (f[0], f[1])
+    me.signature = lambda cell, f: base.stable_hash((cell[0], cell[1], f[0])) if cell[0] in ("nary", "oper", "meth", "allconst") else base.stable_hash((tuple(st[0] for st in cell[1]), tuple(st[2] for st in cell[1]), f[0], f[1][:30]))
     return conf.finalize_cell(me, v)
 
 
@@ -603,7 +677,7 @@ def m_constant_view_reports_grad(v):
     view-gradient path after backward."""
     f = v.get("failure") or {}
     cell = (v.get("case") or {}).get("cell") or [None, []]
-    if cell[0] in ("nary", "oper", "meth"):
+    if cell[0] in ("nary", "oper", "meth", "allconst"):
         return False
     return f.get("kind") == "grad_on_constant" and any(st[0] == "reshape" and st[2] is True for st in cell[1])
 
